@@ -23,6 +23,7 @@ static GLOBAL: bombs::Counting = bombs::Counting;
 mod robotics;
 mod snippet;
 mod scalarrt;
+mod emit;
 mod yamlgen;
 mod anchors;
 
@@ -67,6 +68,7 @@ fn main() {
         ("calls", m) => calls::run(m, &a),
         ("locs", m) => locs::run(m, &a),
         ("anchors", m) => anchors::run(m, &a),
+        ("emit", m) => emit::run(m, &a),
         _ => { eprintln!("unknown area/mode"); 2 }
     };
     std::process::exit(code);
